@@ -430,6 +430,16 @@ class Bip32KeyIndex:
             return self.m_idx == other
         return self.m_idx == other.m_idx
 
+    def __hash__(self) -> int:
+        """
+        Hash operator, consistent with the equality operator (so that key indexes can be used as
+        arguments of cached methods and as dictionary keys).
+
+        Returns:
+            int: Hash value
+        """
+        return hash(self.m_idx)
+
 
 class Bip32KeyData:
     """
